@@ -189,4 +189,6 @@ def run_c03(ctx, fa):
                 "split into blocks of positive or negative-count form, checks partition invariance on the spec, prints bytes + expected value + "
                 "index positions; replayed into schemaless_reader (returned and skipped), every union/enum index replaced by 6 out-of-range "
                 "values, every proper prefix (all offsets up to 300 bytes, structural and sampled beyond); non-trivial = non-empty encoding")
+    from . import p_binary
+    p_binary.model_and_replay(ctx, fa, ("C03.",))
     run(ctx, fa, lambda p: p == "C03.")
